@@ -87,3 +87,32 @@ def nontrivial_count(episodes):
                 if touched:
                     seen.add(json.dumps([a["modules"], a["imports"], ev["rule"]], sort_keys=True))
     return evals, len(seen)
+
+
+def suite_episode(timeout=1800):
+    """(T) third trace source: the repository's own suite, run under /verif's pytest plugin (which wraps
+    Rule.assert_applies from outside, in that pytest process only).  tests/test_architecture.py is deselected: its
+    fixture spins for 900 s and then errors on every checkout of this sandbox (directory name)."""
+    import json, os, subprocess, tempfile
+
+    fd, out = tempfile.mkstemp(suffix=".ndjson", dir=tlc.scratch_root())
+    os.close(fd)
+    env = dict(os.environ, PYTESTARCH_VERIF_TRACE=out)
+    env["PYTHONPATH"] = "/verif:" + env.get("PYTHONPATH", "")
+    p = subprocess.run(["/venv/bin/python", "-m", "pytest", "-q", "-p", "no:cacheprovider", "-p", "harness.pytest_plugin",
+                        "--deselect", "tests/test_architecture.py"], cwd="/repo", env=env,
+                       stdout=subprocess.PIPE, stderr=subprocess.STDOUT, text=True, timeout=timeout)
+    if not os.path.exists(out + ".meta"):
+        raise tlc.MachineryError("repository suite did not run under the trace plugin:\n" + p.stdout[-1500:])
+    meta = json.load(open(out + ".meta"))
+    events = [json.loads(l) for l in open(out)] if os.path.getsize(out) else []
+    if meta["evaluations"] < 50:
+        raise tlc.MachineryError(f"repository suite produced only {meta['evaluations']} rule evaluations")
+    return events, meta
+
+
+def validate_suite():
+    """-> (trace result, episodes, fails, meta) for the repository-suite trace."""
+    events, meta = suite_episode()
+    tr = trace.validate([events], "Trace_Rules.tla", "Trace_Rules.cfg", procs=1)
+    return tr, [events], attach(tr, [{"driver": "suite"}], [events]), meta
